@@ -927,3 +927,151 @@ Proof.
   - apply model_trace_fine_ok. exact Hrun.
   - apply model_trace_core_ok.
 Qed.
+
+(* ---- the float-state invariant of every reachable state, without the predicate accumulator *)
+Definition reach_inv (s : cubic) : Prop :=
+  mss_ok (mss s) /\ rwnd_ok (rwnd s) /\ cwnd_ok (cwnd s) /\ cwnd_ok (ssthresh s).
+
+Lemma reach_new : forall now mss0, mss_ok mss0 -> reach_inv (cubic_new now mss0).
+Proof.
+  intros now m Hm. destruct f64_2_correct as [F2 V2]. split; [exact Hm|]. split; [|split].
+  - split; [reflexivity|]. cbn [cubic_new rwnd f64_zero B2R]. lra.
+  - right. cbn [cubic_new cwnd]. split; [exact F2 | rewrite V2; lra].
+  - left. reflexivity.
+Qed.
+
+Section Reach.
+Variable cbrt : f64 -> f64.
+Variable powf3 : f64 -> f64.
+
+Lemma reach_step : forall s o s', reach_inv s -> c15_op_dom o = true ->
+  cubic_step cbrt powf3 s o = Some s' -> reach_inv s'.
+Proof.
+  intros s o s' (Hm & Hok & Hc & Hs) Hd E.
+  destruct (step_cwnd_ok cbrt powf3 s o s' Hm (proj1 Hok) Hd Hc Hs E) as [Hc' Hs'].
+  assert (Hmr : mss_ok (mss s') /\ rwnd_ok (rwnd s')); [|destruct Hmr as [A B]; exact (conj A (conj B (conj Hc' Hs')))].
+  destruct o as [win|now len rtt| |now|cb sb|m']; cbn [cubic_step] in E.
+  - injection E as <-. cbn [cubic_set_remote_window mss rwnd]. split; [exact Hm|].
+    unfold c15_op_dom in Hd. apply set_rw_ok; [exact Hm | unfold c15_u32, M32 in Hd; lia].
+  - destruct (on_ack_cases _ _ _ _ _ _ E) as [->|[X ->]]; split; assumption.
+  - injection E as <-. split; assumption.
+  - injection E as <-. split; assumption.
+  - injection E as <-. split; assumption.
+  - injection E as <-. unfold cubic_set_mss. destruct (Z.eqb_spec (mss s) m'); [split; assumption|].
+    cbn [mss rwnd]. split; [apply mss_ok_b; exact Hd | exact Hok].
+Qed.
+
+Lemma reach_run : forall ops s s', reach_inv s -> forallb c15_op_dom ops = true ->
+  cubic_run cbrt powf3 s ops = Some s' -> reach_inv s'.
+Proof.
+  induction ops as [|o ops IH]; intros s s' Hr Hd E; cbn [cubic_run] in E.
+  - injection E as <-. exact Hr.
+  - cbn [forallb] in Hd. apply andb_true_iff in Hd. destruct Hd as [Hd1 Hd2].
+    destruct (cubic_step cbrt powf3 s o) as [s1|] eqn:E1; cbn [bind] in E; [|discriminate E].
+    exact (IH s1 s' (reach_step s o s1 Hr Hd1 E1) Hd2 E).
+Qed.
+
+(* (1) on every reachable state: while window() < sshthresh() one ACK of len bytes raises
+   window() by at most len + 1 (and in slow start proper it never lowers it: slow_start_bytes) *)
+Lemma slow_start_bytes_reachable : forall mss0 ops s now len rtt s',
+  mss_ok mss0 -> forallb c15_op_dom ops = true ->
+  cubic_run cbrt powf3 (cubic_new 0 mss0) ops = Some s ->
+  (0 <= len < 2 ^ 32)%Z -> cubic_on_ack powf3 s now len rtt = Some s' ->
+  (cubic_window s < cubic_sshthresh s)%Z ->
+  (cubic_window s' <= cubic_window s + len + 1)%Z.
+Proof.
+  intros mss0 ops s now len rtt s' Hm Hd E Hl Ea Hg.
+  destruct (reach_run ops _ s (reach_new 0 mss0 Hm) Hd E) as (Hm' & Hok & Hc & Hs).
+  exact (on_ack_fine powf3 s now len rtt s' Hm' Hok Hc Hs Hl Ea Hg).
+Qed.
+End Reach.
+
+Lemma reachable_state_invariant : forall (cbrt powf3 : f64 -> f64) mss0 ops s,
+  mss_ok mss0 -> forallb c15_op_dom ops = true ->
+  cubic_run cbrt powf3 (cubic_new 0 mss0) ops = Some s -> reach_inv s.
+Proof.
+  intros cbrt powf3 mss0 ops s Hm Hd E.
+  exact (reach_run cbrt powf3 ops _ s (reach_new 0 mss0 Hm) Hd E).
+Qed.
+
+(* ---- (3) set_mss in bytes: a run of MSS changes, then the same peer window re-applied *)
+Lemma set_mss_mss : forall s m', mss (cubic_set_mss s m') = m'.
+Proof.
+  intros s m'. unfold cubic_set_mss. destruct (Z.eqb_spec (mss s) m') as [E|_]; [exact E | reflexivity].
+Qed.
+
+Lemma pend_chain : forall ms s k wb x0 D, mss_ok (mss s) -> forallb c15_mss_ok ms = true ->
+  (0 <= k)%Z -> (k + Z.of_nat (length ms) <= PEND_MAX)%Z -> (wb < 2 ^ 32)%Z ->
+  pend_facts k wb s x0 D ->
+  exists k' D', (k <= k' <= k + Z.of_nat (length ms))%Z /\
+    mss_ok (mss (fold_left cubic_set_mss ms s)) /\
+    pend_facts k' wb (fold_left cubic_set_mss ms s) x0 D'.
+Proof.
+  induction ms as [|m' ms IH]; intros s k wb x0 D Hm Hall Hk Hlen Hwb Hf.
+  - exists k, D. cbn [fold_left length Z.of_nat]. split; [lia|]. split; assumption.
+  - cbn [forallb] in Hall. apply andb_true_iff in Hall. destruct Hall as [Hm1 Hall].
+    apply mss_ok_b in Hm1. cbn [fold_left]. cbn [length] in *. rewrite Nat2Z.inj_succ in *.
+    assert (Hm' : mss_ok (mss (cubic_set_mss s m'))) by (rewrite set_mss_mss; exact Hm1).
+    destruct (Z.eq_dec (mss s) m') as [Eq|Ne].
+    + assert (Es : cubic_set_mss s m' = s) by (unfold cubic_set_mss; rewrite Eq, Z.eqb_refl; reflexivity).
+      rewrite Es in *.
+      destruct (IH s k wb x0 D Hm Hall Hk) as (k' & D' & Hk' & R); [lia | exact Hwb | exact Hf |].
+      exists k', D'. split; [lia | exact R].
+    + destruct (pend_step s m' k wb x0 D Hm Hm1 Ne) as [D1 Hf1]; [unfold PEND_MAX in *; lia | exact Hwb | exact Hf |].
+      destruct (IH (cubic_set_mss s m') (k + 1)%Z wb x0 D1 Hm' Hall) as (k' & D' & Hk' & R);
+        [lia | lia | exact Hwb | exact Hf1 |].
+      exists k', D'. split; [lia | exact R].
+Qed.
+
+(* peer window win in force, cwnd <= max(rwnd, 2), byte window strictly between 2 mss + 1 and
+   win - 1; then up to 65536 set_mss calls and set_remote_window win again: the byte window is the
+   old one (or the new two-segment floor), up to one byte: set_mss rescales, it never resets *)
+Lemma set_mss_chain_bytes : forall s win ms,
+  mss_ok (mss s) -> (0 <= win < 2 ^ 32)%Z ->
+  is_finite (rwnd s) = true -> B2R (rwnd s) = rnd (IZR win / IZR (mss s)) ->
+  is_finite (cwnd s) = true -> 0 <= B2R (cwnd s) <= Rmax (B2R (rwnd s)) 2 ->
+  (2 * mss s + 1 < cubic_window s)%Z -> (cubic_window s + 1 < win)%Z ->
+  forallb c15_mss_ok ms = true -> (Z.of_nat (length ms) <= PEND_MAX)%Z ->
+  let s1 := fold_left cubic_set_mss ms s in
+  let w := cubic_window (cubic_set_remote_window s1 win) in
+  let expect := Z.max (cubic_window s) (Z.min (2 * mss s1) win) in
+  (expect - 1 <= w <= expect + 1)%Z.
+Proof.
+  intros s win ms Hm Hw Frw Vrw Fc Hc H1 H2 Hall Hlen. cbv zeta.
+  pose proof (pend_init s win Hm Hw Frw Vrw Fc Hc H1) as H0.
+  destruct (pend_chain ms s 0 (cubic_window s) (B2R (cwnd s) * IZR (mss s)) 0 Hm Hall)
+    as (k' & D' & Hk' & Hm1 & Hf1);
+    [lia | lia | lia | exact H0 |].
+  apply (pend_check _ win k' (cubic_window s) (B2R (cwnd s) * IZR (mss s)) D' Hm1 Hw);
+    [lia | exact H2 | exact Hf1].
+Qed.
+
+(* ---- non-vacuity of the hypotheses, by computation on reachable states *)
+Definition ex_reach (ops : list cubic_op) : option cubic :=
+  cubic_run (fun x => x) (fun x => x) (cubic_new 0 1500) ops.
+
+(* slow_start_bytes: a reachable slow-start state (finite cwnd, below ssthresh and below rwnd) *)
+Example slow_start_bytes_hyps_sat :
+  match ex_reach [SetRemoteWindow 1000000; OnAck 1 1500 1000] with
+  | Some s => is_finite (cwnd s) = true /\ flt (cwnd s) (ssthresh s) = true /\
+              fge (cwnd s) (rwnd s) = false /\ is_finite (rwnd s) = true /\
+              (cubic_window s < cubic_sshthresh s)%Z
+  | None => False
+  end.
+Proof. vm_compute. repeat split; reflexivity. Qed.
+
+(* set_mss_chain_bytes: 15000 bytes at mss 1500 under a 1000000-byte peer window; two MSS changes;
+   same peer window again: still 15000 bytes *)
+Example set_mss_chain_example :
+  match ex_reach [SetRemoteWindow 1000000; OnRecovered 15000 1000000] with
+  | Some s =>
+      (2 * mss s + 1 <? cubic_window s)%Z = true /\ (cubic_window s + 1 <? 1000000)%Z = true /\
+      Bleb (cwnd s) (rwnd s) = true /\
+      cubic_window (cubic_set_remote_window (fold_left cubic_set_mss [1000; 1234]%Z s) 1000000) = 15000%Z
+  | None => False
+  end.
+Proof. vm_compute. repeat split; reflexivity. Qed.
+
+Example setmss_runs_ok_sat :
+  setmss_runs_ok [SetRemoteWindow 1000000; SetMss 1000; SetMss 1234; SetRemoteWindow 1000000] = true.
+Proof. vm_compute. reflexivity. Qed.
